@@ -28,6 +28,8 @@ type PersistedJob struct {
 
 	Variables map[string]interface{} `json:",omitempty"`
 	User      string                 `json:",omitempty"`
+	// LastError is the error message of the job (if it had an error)
+	LastError *string `json:",omitempty"`
 
 	Tasks []PersistedTask
 }
